@@ -25,6 +25,8 @@ Decides:
                            way from a success of parse_option to the next round or the exit (a success that consumed nothing - env, fallback -
                            counts).
  B builders              the wrappers are built with catch=false and store the user's value / function / message in the field the eval reads (wiring table).
+ K6b conversion arms     parse_os_str converts every target except OsString / PathBuf through FromStr of the exact to_str() view and fails on
+                           non-UTF-8 input; nothing lossy can reach a value (shared with C02).
 Does not decide: which error survives for a particular nesting inside alternatives."""
 import re
 from core import *
